@@ -106,7 +106,7 @@ Theorem C03_promised : forall s sg u a sm so ov mu al s',
 Proof. exact wager_core_promised. Qed.
 Print Assumptions C03_promised.
 
-From Sge Require Import Gen.kernels Proofs.GenKernels.
+From Sge Require Import Gen.kernels Proofs.GenMarket Proofs.GenBet.
 (* the promised winnings and the stake of a partial fill in the model ARE the Go functions: CalculatePayoutProfit and CalculateBetAmountInt
    (with CalculateDecimalPayout / CalculateDecimalBetAmount behind them) are generated from x/bet/types on every run (Gen/kernels.v) and
    proved equal to payout_profit and bet_amount_int *)
